@@ -3,6 +3,7 @@
 mod enc;
 mod cli;
 mod laws;
+mod prims;
 mod sem;
 mod syn;
 
@@ -12,6 +13,7 @@ fn main() {
         Some("sem") if args.len() == 4 => sem::run(&args[2], &args[3]),
         Some("syn") if args.len() == 4 => syn::run(&args[2], &args[3]),
         Some("laws") if args.len() == 4 => laws::run(&args[2], &args[3]),
+        Some("prims") if args.len() == 4 => prims::run(&args[2], &args[3]),
         Some("chars") if args.len() == 3 => std::fs::read_to_string(&args[2]).map_err(|e| e.to_string()).and_then(|t| {
             let v: serde_json::Value = serde_json::from_str(&t).map_err(|e| e.to_string())?;
             let out: Vec<serde_json::Value> = v.as_array().ok_or("list expected")?.iter().map(|s| syn::chars_of(s.as_str().unwrap_or(""))).collect();
